@@ -21,7 +21,7 @@ T0 == InitTable(<<>>, 0, 0, {})
 Init == l = 1 /\ m = T0 /\ m0 = T0 /\ ready = T0 /\ sup = {} /\ kk = FALSE /\ a176 = FALSE /\ failed = FALSE
 
 (* The modes Resume must re-establish: everything start-up switched. *)
-ModeView(t) == [alt |-> t.alt, vis |-> t.vis, keypad |-> t.keypad, set |-> t.set, kitty |-> t.kitty]
+ModeView(t) == [alt |-> t.alt, vis |-> t.vis, keypad |-> t.keypad, set |-> t.set, kitty |-> t.kitty, kittyAlt |-> t.kittyAlt]
 
 Reject(e, why, detail) ==
   /\ failed' = TRUE
